@@ -42,6 +42,21 @@ type DkgScenario struct {
 	Calls       []DkgCall   `json:"calls"`
 	TimeoutMs   int         `json:"timeout_ms"`
 	Generate    bool        `json:"generate"`
+	Duties      []DutyOp    `json:"duties"`
+}
+
+// DutyOp asks one instance for a partial signature for a duty on the generated account (C14).
+type DutyOp struct {
+	Inst    uint64 `json:"inst"`
+	Duty    string `json:"duty"`    // label, e.g. "r12:A"
+	Kind    string `json:"kind"`    // att | prop
+	Variant string `json:"variant"` // single | batch1 | batch2 (attestations only)
+	By      string `json:"by"`      // name | key
+	S       uint64 `json:"s"`
+	T       uint64 `json:"t"`
+	Slot    uint64 `json:"slot"`
+	Root    string `json:"root"`
+	Filler  uint64 `json:"filler"` // epoch base for the filler entry of batch2
 }
 
 func errClass(err error) string {
@@ -218,6 +233,9 @@ func RunDkgScenario(ctx context.Context, sc *DkgScenario, log *Log) error {
 		if ok && sc.Probe {
 			c.probe(ctx, sc, parts, hex.EncodeToString(res.GetPublicKey()), log)
 		}
+		if ok && len(sc.Duties) > 0 {
+			c.runDuties(ctx, sc, infos, hex.EncodeToString(res.GetPublicKey()), log)
+		}
 	}
 	crashed := []uint64{}
 	for _, id := range c.Order {
@@ -311,4 +329,103 @@ func (c *Cluster) probe(ctx context.Context, sc *DkgScenario, parts []uint64, co
 	}
 	log.Emit(Ev{"ev": "Threshold", "t_ok": tAll, "tm1_fail": tm1None, "subsets_t": nt, "subsets_tm1": ntm1})
 	_ = core.Endpoint{}
+}
+
+// runDuties routes duties to instances and reports which partial signatures were obtained; at the end it tries
+// to recover a composite signature per duty from the partial signatures collected.
+func (c *Cluster) runDuties(ctx context.Context, sc *DkgScenario, infos map[uint64]AccountInfo, composite string, log *Log) {
+	type got struct {
+		root [32]byte
+		sigs map[uint64]bls.Sign
+	}
+	all := map[string]*got{}
+	order := []string{}
+	attDomain := domainBytes("att", 0x66)
+	propDomain := domainBytes("prop", 0x66)
+	for n, d := range sc.Duties {
+		in := c.Inst[d.Inst]
+		if in == nil {
+			continue
+		}
+		cctx := credsCtx(WithRid(ctx, fmt.Sprintf("duty%d", n)), "c1", "")
+		share, _ := hex.DecodeString(infos[d.Inst].Share)
+		var root [32]byte
+		var sig []byte
+		state := "ERROR"
+		switch d.Kind {
+		case "prop":
+			root = SigningRoot(HeaderRoot(d.Slot, 11, rootBytes("p"+d.Root), rootBytes("q"+d.Root), rootBytes(d.Root)), propDomain)
+			req := &pb.SignBeaconProposalRequest{Domain: propDomain, Data: &pb.BeaconBlockHeader{Slot: d.Slot, ProposerIndex: 11,
+				ParentRoot: rootBytes("p" + d.Root), StateRoot: rootBytes("q" + d.Root), BodyRoot: rootBytes(d.Root)}}
+			if d.By == "key" {
+				req.Id = &pb.SignBeaconProposalRequest_PublicKey{PublicKey: share}
+			} else {
+				req.Id = &pb.SignBeaconProposalRequest_Account{Account: sc.Account}
+			}
+			if res, err := in.St.SignerH.SignBeaconProposal(cctx, roundTrip(req, &pb.SignBeaconProposalRequest{})); err == nil {
+				state, sig = res.GetState().String(), res.GetSignature()
+			}
+		default:
+			root = SigningRoot(AttRoot(100+d.T, 7, rootBytes(d.Root), d.S, rootBytes("s"+d.Root), d.T, rootBytes("t"+d.Root)), attDomain)
+			one := &pb.SignBeaconAttestationRequest{Domain: attDomain, Data: &pb.AttestationData{Slot: 100 + d.T, CommitteeIndex: 7, BeaconBlockRoot: rootBytes(d.Root),
+				Source: &pb.Checkpoint{Epoch: d.S, Root: rootBytes("s" + d.Root)}, Target: &pb.Checkpoint{Epoch: d.T, Root: rootBytes("t" + d.Root)}}}
+			if d.By == "key" {
+				one.Id = &pb.SignBeaconAttestationRequest_PublicKey{PublicKey: share}
+			} else {
+				one.Id = &pb.SignBeaconAttestationRequest_Account{Account: sc.Account}
+			}
+			switch d.Variant {
+			case "batch1", "batch2":
+				req := &pb.SignBeaconAttestationsRequest{Requests: []*pb.SignBeaconAttestationRequest{one}}
+				if d.Variant == "batch2" {
+					req.Requests = append(req.Requests, &pb.SignBeaconAttestationRequest{Id: &pb.SignBeaconAttestationRequest_Account{Account: "W1/a0"}, Domain: attDomain,
+						Data: &pb.AttestationData{Slot: 1, CommitteeIndex: 1, BeaconBlockRoot: rootBytes("F"),
+							Source: &pb.Checkpoint{Epoch: d.Filler, Root: rootBytes("f")}, Target: &pb.Checkpoint{Epoch: d.Filler + 1, Root: rootBytes("g")}}})
+				}
+				if res, err := in.St.SignerH.SignBeaconAttestations(cctx, roundTrip(req, &pb.SignBeaconAttestationsRequest{})); err == nil && len(res.GetResponses()) > 0 {
+					state, sig = res.GetResponses()[0].GetState().String(), res.GetResponses()[0].GetSignature()
+				}
+			default:
+				if res, err := in.St.SignerH.SignBeaconAttestation(cctx, roundTrip(one, &pb.SignBeaconAttestationRequest{})); err == nil {
+					state, sig = res.GetState().String(), res.GetSignature()
+				}
+			}
+		}
+		valid := len(sig) > 0 && VerifySig(share, root, sig)
+		if _, ok := all[d.Duty]; !ok {
+			all[d.Duty] = &got{root: root, sigs: map[uint64]bls.Sign{}}
+			order = append(order, d.Duty)
+		}
+		if valid {
+			var bs bls.Sign
+			if bs.Deserialize(sig) == nil {
+				all[d.Duty].sigs[d.Inst] = bs
+			}
+		}
+		log.Emit(Ev{"ev": "Partial", "inst": d.Inst, "duty": d.Duty, "variant": d.Variant, "by": d.By, "state": state, "valid": valid, "hassig": len(sig) > 0})
+	}
+	var cpk bls.PublicKey
+	cb, _ := hex.DecodeString(composite)
+	_ = cpk.Deserialize(cb)
+	for _, name := range order {
+		g := all[name]
+		ids := make([]uint64, 0, len(g.sigs))
+		for id := range g.sigs {
+			ids = append(ids, id)
+		}
+		sort.Slice(ids, func(i, j int) bool { return ids[i] < ids[j] })
+		compositeOK := false
+		if len(ids) >= int(sc.T) {
+			ss := make([]bls.Sign, 0)
+			is := make([]bls.ID, 0)
+			for _, id := range ids[:sc.T] {
+				ss = append(ss, g.sigs[id])
+				is = append(is, *util.BLSID(id))
+			}
+			var rec bls.Sign
+			msg := append([]byte{}, g.root[:]...) // cgo: do not hand over memory that sits next to Go pointers
+			compositeOK = rec.Recover(ss, is) == nil && rec.VerifyByte(&cpk, msg)
+		}
+		log.Emit(Ev{"ev": "DutyTotal", "duty": name, "partials": len(ids), "composite_valid": compositeOK})
+	}
 }
